@@ -200,6 +200,8 @@ def corr_decode(acc, st, build, data, seekable, rc, got, removed, test=False, rm
     if st["io"] is None or len(data) > 300000:
         return
     mrc, mout, mrm = model_dec(st, build, data, seekable, test, rm, fault)
+    acc.stats["corr_compared"] += 1
+    acc.stats["corr_exit_%s_model_%d_real_%d" % (build, mrc, rc)] += 1
     bad = []
     if (mrc == 0) != (rc == 0):
         bad.append("exit class")
@@ -342,7 +344,7 @@ def case_fault(acc, st, case, rng):
             if op == "comp_multi":
                 rd.write("a.bin", raw); rd.write("b.bin", raw[: len(raw) // 2] + b"tail"); return ["a.bin", "b.bin"]
         args = {"dec": ["-d", "-q", "--rm"] + sparse + ["in.lz4", "out.bin"],
-                "test": ["-t", "-q", "in.lz4"],
+                "test": ["-t", "-q"] + sparse + ["in.lz4"],
                 "dec_stdout": ["-dc", "-q", "--rm", "in.lz4"],
                 "dec_multi": ["-d", "-m", "-q", "--rm", "a.lz4", "b.lz4"],
                 "comp": ["-q", "--rm", "in.bin", "out.lz4"],
@@ -387,7 +389,57 @@ def case_fault(acc, st, case, rng):
             acc.evals += 1
             acc.stats["fault_%s_%s" % (op, kind)] += 1
             judge_fault(acc, st, build, op, kind, k, e, rc, err, srcs, s, raw, rd, so)
+            if not case.get("sparse"):
+                corr_fault(acc, st, build, op, kind, k, e, rc, srcs, s, raw, rd, so)
             acc.keys.add(hashlib.sha1(("%s|%s|%s|%d|%s" % (build, op, kind, k, case["sseed"])).encode()).hexdigest())
+
+def model_fault(op, kind, k, e):
+    """shim fault -> fault of the model (None = this fault has no counterpart in the model)"""
+    if kind == "rpos": return "rpos:%d" % k
+    if kind == "wpos": return "wpos:%d" % k
+    if kind == "fopen":
+        if e["mode"].startswith("w"): return "opendst"
+        if e["ret"] != 0: return "-"                       # overwrite probe of the destination: normally absent
+        return "opensrc"
+    if kind == "fread": return "rpos:%d" % e["pos"]
+    if kind == "freadshort": return "rpos:%d" % (e["pos"] + e["ret"] // 2)
+    if kind == "fwrite": return "wpos:%d" % e["pos"] if e["req"] > 0 else "-"
+    if kind == "fwriteshort": return "wpos:%d" % (e["pos"] + e["req"] // 2) if e["req"] > 0 else "-"
+    if kind in ("fclose_w", "fflush"): return "closedst"
+    if kind == "fclose_r": return "-"
+    if kind == "fseek": return "seek:%d" % k
+    if kind == "remove": return "remove"
+    return None
+
+COMP_EXACT = {0, 1, 36, 50}
+def corr_fault(acc, st, build, op, kind, k, e, rc, srcs, s, raw, rd, so):
+    if st["io"] is None:
+        return
+    mf = model_fault(op, kind, k, e)
+    if mf is None:
+        return
+    if op in ("dec", "test", "dec_stdout"):
+        got = None
+        if op == "dec": got = rd.read("out.bin") or b""
+        if op == "dec_stdout": got = open(so, "rb").read()
+        removed = not os.path.exists(rd.f("in.lz4"))
+        corr_decode(acc, st, build, s["data"], True, rc, got, removed, test=(op == "test"), rm=(op != "test"), fault=mf,
+                    tag="%s fault %s:%d -> %s" % (op, kind, k, mf))
+    elif op in ("comp", "legacy") and len(raw) < 100000:
+        if kind in ("fwrite", "fwriteshort", "wpos"):
+            if kind == "wpos":
+                out = rd.read("out.lz4")
+                # the model's compressor is abstract: only "some write fails" carries over
+                if k > 0: return
+            mf = "wpos:0"
+        r = st["io"].ask("comp", "1" if op == "legacy" else "0", "1", mf, hx(raw))
+        t = r.split()
+        mrc, mrm = int(t[1]), t[4] == "1"
+        removed = not os.path.exists(rd.f("in.bin"))
+        acc.stats["corr_compared_comp"] += 1
+        if (mrc == 0) != (rc == 0) or (mrc in COMP_EXACT and rc in COMP_EXACT and mrc != rc) or mrm != removed:
+            acc.fail("corr_fail", "%s %s model/binary disagree: model exit %d rm %s ; binary exit %d rm %s (fault %s:%d -> %s)" %
+                     (build, op, mrc, mrm, rc, removed, kind, k, mf), build=build, op=op, fault="%s:%d" % (kind, k), call=e)
 
 def check_rm_trace(acc, tr, build, op, srcs):
     """C14_rm_order on the REAL call trace: each remove(src) is preceded by all writes to, and the successful
